@@ -141,6 +141,7 @@ Inductive perr :=
 | EBadBool | EBadInt | EBadEnum           (* ValueError raised by parse_directive_value *)
 | ETypeError | EAssertion | EAttribute    (* other exception types escaping the parser *)
 | EExpectedEq | EUnknown                  (* ValueError raised by parse_directive_list *)
+| ENotSettable                            (* proposed fix: value-less directive given a string *)
 | ECodec.                                 (* codecs.getdecoder raised something other than LookupError *)
 
 Inductive res (A : Type) :=
@@ -258,6 +259,15 @@ Section Parse.
 
   (* ---------- parse_directive_list ---------- *)
 
+  (* a directive that a string can give a value to (directive_types entry not None) *)
+  Definition settable (name : str) : bool :=
+    match lookup_type name types with None | Some TNoValue => false | _ => true end.
+
+  (* [strict] = the proposed fix (proposed_fixes/C41-...): a directive of _directive_defaults
+     whose type entry is None is rejected instead of being stored as None.  The code as it is:
+     strict = false. *)
+  Variable strict : bool.
+
   (* the ".all" branch: every default directive whose name starts with the prefix, in table order *)
   Fixpoint expand_all (relaxed : bool) (prefix vtxt : str) (ds : list str) (found : bool)
            (st : dict) : res (bool * dict) :=
@@ -265,6 +275,7 @@ Section Parse.
     | [] => Ok (found, st)
     | d :: r =>
         if starts_with prefix d then
+          if strict && negb (settable d) then Err ENotSettable d else
           match parse_directive_value relaxed d vtxt with
           | Ok v => expand_all relaxed prefix vtxt r true (set d v st)
           | Err e w => Err e w
@@ -292,6 +303,7 @@ Section Parse.
             | Some _ => Err EAttribute name
             | None => Ok (set name (VList [vtxt]) st)
             end
+          else if strict && negb (settable name) then Err ENotSettable name
           else
             match parse_directive_value relaxed name vtxt with
             | Ok v => Ok (set name v st)
